@@ -19,7 +19,7 @@ _qc = itertools.count(1)
 
 DSL_NAMES = {"forall", "exists", "forall_range", "exists_range", "forall_keys", "exists_key", "forall_int",
              "forall_of", "exists_of", "implies", "iff", "ite", "same", "type_is", "old", "pre", "dpos", "dpos_exact", "dsize",
-             "opt_val", "str_of_int", "type_name", "str_of_type", "result_is_fresh", "uf"}
+             "opt_val", "str_of_int", "type_name", "str_of_type", "result_is_fresh", "uf", "fpow"}
 
 
 def _mentions_any(t) -> bool:
@@ -716,6 +716,9 @@ class DslMixin:
             t = self.w.type_const(v.name) if isinstance(v, ClassRef) else v.term
             f = self.w.func(f"str<{self.w.sort(T.TYPE)}>", self.w.sort(T.TYPE), self.w.StrSort)
             return SV(f(t), T.STR)
+        if name == "fpow":
+            # float power as a mathematical value (no range check); natively: inf beyond the float range
+            return self.power(self.evv(node.args[0]), self.evv(node.args[1]), line)
         if name == "uf":
             # uf("name", "ret type", args...) : an uninterpreted function shared between contracts
             fname = ast.literal_eval(node.args[0])
